@@ -3038,6 +3038,16 @@ def _extract_block(body_toks, frm, to, a, rep):
         # the block ends where the statement holding this anchor STARTS (the anchor statement itself is not part of it):
         # the text of the block's own last statement may change freely
         hu = [h for h in _find_seq_any(body_toks, pat_tokens(a["block_until"])) if h[0] > hits[0][1]]
+        if not hu and to:
+            # the statement the block used to end before is not behind it any more (the block was moved): end it with the
+            # statement holding the `block_to` anchor instead
+            hits2 = [h for h in _find_seq_any(body_toks, pat_tokens(to)) if h[0] >= s]
+            if not hits2:
+                raise AnchorLost(f"block_until {a['block_until']!r} / block_to {to!r}: no match after block_from")
+            e = _stmt_end_from_start(body_toks, _stmt_start_before(body_toks, hits2[0][0], 1))
+            rep.append(("R0", f"inline block from {frm!r} to {to!r} (block_until anchor not behind it) wrapped as `{a['wrap']}`"))
+            tail = a.get("tail", "")
+            return [T(PUNCT, "{"), T(WS, "\n")] + body_toks[s:e] + [T("raw", "\n" + tail + "\n"), T(PUNCT, "}")]
         if not hu:
             raise AnchorLost(f"block_until {a['block_until']!r}: no match after block_from")
         e = _stmt_start_before(body_toks, hu[0][0], 1)
